@@ -19,6 +19,11 @@
 //!      `absolute(v)`): oracles that hold in every interleaving, so a check-then-act `absolute` is caught by a
 //!      concrete failing run. Raced programs are re-run sequentially on the real code and compared with the model.
 //!
+//!  (C, round 4) races under the deterministic scheduler (`sched_case`): yield points before every call and inside
+//!      `fetch_update`'s closure (hook-C04), schedule fed to the Lean CAS-loop machine (`atomics ctrace`), per-step
+//!      native oracles; every schedule of small configurations; an OS-thread set-vs-increment race over NaN / ±0.0 /
+//!      ±∞ cells (`conc_gauge_set_vs_inc`); rustc type probes (`type_probes`).
+//!
 //! Oracles (independent of the model): own u128/i128 tallies of sums, maxima, last set, delivery counts;
 //! every call runs under `catch_unwind` (a panic is an oracle failure).
 
@@ -703,16 +708,17 @@ fn seq_hist(out: &mut Out, depth: usize, calls: &[(bool, Arg, Option<usize>)]) {
     let log = Arc::new(Log::default());
     let live = hist_handle(&log, depth);
     let live2 = live.clone();
-    let noop = Histogram::noop();
+    // round 4: clones of clones, all alive at once (≥ 4 owners of the one inner `Arc`)
+    let live3 = live2.clone();
+    let live4 = live3.clone();
+    let noop = Histogram::noop().clone();
     let mut toks = vec![];
     let mut delivered = 0usize;
     for (i, (is_live, a, many)) in calls.iter().enumerate() {
         let h = if !*is_live {
             &noop
-        } else if i % 2 == 0 {
-            &live
         } else {
-            &live2
+            [&live, &live2, &live3, &live4][i % 4]
         };
         let tok = match many {
             None => format!("{}r={}", if *is_live { "L" } else { "N" }, a.tok()),
@@ -1347,6 +1353,115 @@ fn conc_gauge_set(r: &mut Rng, out: &mut Out, len: usize) {
     pend.flush(out);
 }
 
+/// (round 4) `set` RACING `increment`/`decrement`, with special values in the cell: one thread sets, in turn, NaN,
+/// ±0.0, ±∞ and bases `j·2^40`; 1–3 workers add their own unit `2^(10w)` (by `increment(u)` or `decrement(-u)`), at
+/// most 1000 times each, so every value the cell can hold is exactly representable and decodes uniquely into
+/// (base, per-worker digit).  Right after each of its sets the setter reads the cell.  In EVERY interleaving: after
+/// `set(NaN)` the cell is NaN, after `set(±∞)` that infinity, after `set(base)` / `set(±0.0)` it is base + Σ digit_w·u_w
+/// with digit_w ≤ the worker's number of calls — an update computed from a stale value (a retry that does not re-read,
+/// a float comparison of NaN / ±0.0 cells) resurrects an older base or a NaN and breaks this; the same for the final value.
+fn conc_gauge_set_vs_inc(r: &mut Rng, out: &mut Out, len: usize) {
+    let mut pend = Pending::default();
+    let nw = r.range(1, 3);
+    let arc = Arc::new(AtomicU64::new(0));
+    let root = Gauge::from_arc(arc.clone());
+    let n_calls: Vec<usize> = (0..nw).map(|_| r.range(len.min(1000) / 2, len.min(1000))).collect();
+    let n_sets = r.range(len / 2, len);
+    let mut sets: Vec<f64> = vec![];
+    for j in 0..n_sets {
+        let v = if j + 1 == n_sets || r.chance(1, 2) {
+            ((j as u64 + 1) << 40) as f64
+        } else {
+            *r.pick(&[f64::NAN, 0.0, -0.0, -0.0, f64::INFINITY, f64::NEG_INFINITY, -f64::NAN])
+        };
+        sets.push(v);
+    }
+    let decode = {
+        let n_calls = n_calls.clone();
+        move |bits: u64, base: u64| -> Result<(), String> {
+            let v = f64::from_bits(bits);
+            if !(v.is_finite() && v >= 0.0 && v.fract() == 0.0 && v < (1u64 << 53) as f64) {
+                return Err(format!("{:016x} ({}) is not base + increments", bits, v));
+            }
+            let x = v as u64;
+            if x >> 40 != base {
+                return Err(format!("{:016x} ({}): base {} instead of {}", bits, v, x >> 40, base));
+            }
+            for w in 0..4 {
+                let d = ((x >> (10 * w)) & 1023) as usize;
+                if d > n_calls.get(w).copied().unwrap_or(0) {
+                    return Err(format!("{:016x} ({}): worker {} counted {} times, it makes {} calls", bits, v, w, d, n_calls.get(w).copied().unwrap_or(0)));
+                }
+            }
+            Ok(())
+        }
+    };
+    let check = {
+        let decode = decode.clone();
+        move |set: f64, seen: u64| -> Result<(), String> {
+            let s = f64::from_bits(seen);
+            if set.is_nan() {
+                if s.is_nan() { Ok(()) } else { Err(format!("after set(NaN) the cell is {:016x} ({})", seen, s)) }
+            } else if set.is_infinite() {
+                if s == set { Ok(()) } else { Err(format!("after set({}) the cell is {:016x} ({})", set, seen, s)) }
+            } else {
+                decode(seen, (set as u64) >> 40).map_err(|e| format!("after set({}): {}", set, e))
+            }
+        }
+    };
+    let bad: Arc<Mutex<Vec<String>>> = Arc::new(Mutex::new(vec![]));
+    let mut bodies: Vec<Box<dyn FnOnce() -> usize + Send>> = vec![];
+    {
+        let h = root.clone();
+        let cell = arc.clone();
+        let sets = sets.clone();
+        let bad = bad.clone();
+        let check = check.clone();
+        bodies.push(Box::new(move || {
+            let mut panics = 0;
+            for v in sets {
+                panics += catch_unwind(AssertUnwindSafe(|| h.set(v))).is_err() as usize;
+                let seen = cell.load(Ordering::SeqCst);
+                if let Err(e) = check(v, seen) {
+                    let mut b = bad.lock().unwrap();
+                    if b.len() < 3 {
+                        b.push(e);
+                    }
+                }
+            }
+            panics
+        }));
+    }
+    for w in 0..nw {
+        let h = if w % 2 == 0 { root.clone().clone() } else { Gauge::from_arc(Arc::new(arc.clone())) };
+        let n = n_calls[w];
+        let u = (1u64 << (10 * w)) as f64;
+        let mut rw = r.fork(w as u64);
+        bodies.push(Box::new(move || {
+            let mut panics = 0;
+            for _ in 0..n {
+                let inc = rw.chance(1, 2);
+                panics += catch_unwind(AssertUnwindSafe(|| if inc { h.increment(u) } else { h.decrement(-u) })).is_err() as usize;
+            }
+            panics
+        }));
+    }
+    let panics = race(bodies);
+    if panics > 0 {
+        pend.fail("a handle operation panicked", &format!("{} calls in a concurrent set-vs-increment run", panics));
+    }
+    for e in bad.lock().unwrap().iter() {
+        pend.fail("a gauge set racing increments/decrements did not leave its value (plus later increments): an update computed from a stale value overwrote it", e);
+    }
+    let fin = arc.load(Ordering::SeqCst);
+    if let Err(e) = check(*sets.last().unwrap(), fin) {
+        pend.fail("set racing increments/decrements: the final value is not the last set plus increments that followed it", &format!("final: {}", e));
+    }
+    out.count(&format!("conc.gauge.set_vs_inc.workers={}", nw));
+    out.nontrivial();
+    pend.flush(out);
+}
+
 /// concurrent record / record_many through clones onto one logging storage: every delivery exactly once
 fn conc_hist(r: &mut Rng, out: &mut Out, len: usize) {
     let mut pend = Pending::default();
@@ -1393,6 +1508,491 @@ fn conc_hist(r: &mut Rng, out: &mut Out, len: usize) {
 }
 
 // ---------------------------------------------------------------------------------------------
+
+// ---------------------------------------------------------------------------------------------
+// (C, round 4) races under the deterministic scheduler, compared step by step with the CAS-loop machine
+//
+// Every thread parks before each of its calls (`c04.op`, a point of this harness) and — inside std's
+// `fetch_update` — at the head of every evaluation of the closure of `GaugeFn::increment/decrement`
+// (`atomics.gauge.cas`, hook-C04): after the load / a failed CAS and before the next CAS.  One grant = one
+// shared-memory operation, the schedule is part of the input and is fed to the model (`atomics ctrace`).  After each
+// call the thread reads the cell (still inside its grant, so the read is the value its own update left).
+
+#[derive(Clone, Copy, Debug)]
+enum SOp {
+    Inc(u64),
+    Abs(u64),
+    GInc(f64),
+    GDec(f64),
+    GSet(f64),
+}
+
+impl SOp {
+    fn tok(&self, live: bool) -> String {
+        let h = if live { "L" } else { "N" };
+        match self {
+            SOp::Inc(v) => format!("{}i{}", h, v),
+            SOp::Abs(v) => format!("{}a{}", h, v),
+            SOp::GInc(v) => format!("{}gi=f64:{:016x}", h, v.to_bits()),
+            SOp::GDec(v) => format!("{}gd=f64:{:016x}", h, v.to_bits()),
+            SOp::GSet(v) => format!("{}gs=f64:{:016x}", h, v.to_bits()),
+        }
+    }
+    fn is_cas_loop(&self) -> bool {
+        matches!(self, SOp::GInc(_) | SOp::GDec(_))
+    }
+    /// what the update makes of the cell contents `cur`, computed natively (no crate code)
+    fn apply_native(&self, cur: u64) -> u64 {
+        match *self {
+            SOp::Inc(v) => cur.wrapping_add(v),
+            SOp::Abs(v) => cur.max(v),
+            SOp::GInc(v) => (f64::from_bits(cur) + v).to_bits(),
+            SOp::GDec(v) => (f64::from_bits(cur) - v).to_bits(),
+            SOp::GSet(v) => v.to_bits(),
+        }
+    }
+}
+
+const CAS_POINT: &str = "atomics.gauge.cas";
+const OP_POINT: &str = "c04.op";
+
+fn same_cell(gauge: bool, a: u64, b: u64) -> bool {
+    a == b || (gauge && f64::from_bits(a).is_nan() && f64::from_bits(b).is_nan())
+}
+
+fn cell_tok(gauge: bool, b: u64) -> String {
+    if gauge && f64::from_bits(b).is_nan() {
+        "nan".into()
+    } else {
+        format!("{:016x}", b)
+    }
+}
+
+struct SchedOutcome {
+    taken: Vec<usize>,
+    toks: Vec<String>,
+    n_commits: usize,
+    fin: u64,
+    fails: Vec<(String, String)>,
+    missing_yield: usize,
+    nan_cas: bool,
+}
+
+/// one scheduled run of `progs` (all counter programs or all gauge programs) on a fresh cell holding `c0`
+fn sched_run(gauge: bool, c0: u64, progs: &[Vec<(bool, SOp)>], schedule: &[usize]) -> SchedOutcome {
+    let arc = Arc::new(AtomicU64::new(c0));
+    let croot = Counter::from_arc(arc.clone());
+    let groot = Gauge::from_arc(arc.clone());
+    let recs: Vec<Arc<Mutex<Vec<u64>>>> = progs.iter().map(|_| Arc::new(Mutex::new(vec![]))).collect();
+    let mut keep_c = vec![];
+    let mut keep_g = vec![];
+    let bodies: Vec<Box<dyn FnOnce() + Send + 'static>> = progs
+        .iter()
+        .enumerate()
+        .map(|(t, p)| {
+            let p = p.clone();
+            let rec = recs[t].clone();
+            let cell = arc.clone();
+            // clone, handle on Arc<Arc<AtomicU64>>, clone of a clone (the intermediate clone stays alive), From<Arc<T>>
+            let (c, g) = match t % 4 {
+                0 => (croot.clone(), groot.clone()),
+                1 => (Counter::from_arc(Arc::new(arc.clone())), Gauge::from_arc(Arc::new(arc.clone()))),
+                2 => {
+                    let (c1, g1) = (croot.clone(), groot.clone());
+                    let r = (c1.clone(), g1.clone());
+                    keep_c.push(c1);
+                    keep_g.push(g1);
+                    r
+                }
+                _ => (Counter::from(arc.clone()), Gauge::from(arc.clone())),
+            };
+            let (cn, gn) = (Counter::noop(), Gauge::noop());
+            Box::new(move || {
+                for (i, (live, op)) in p.into_iter().enumerate() {
+                    if i > 0 {
+                        metrics::verif::point(OP_POINT);
+                    }
+                    let (ch, gh) = if live { (&c, &g) } else { (&cn, &gn) };
+                    match op {
+                        SOp::Inc(v) => ch.increment(v),
+                        SOp::Abs(v) => ch.absolute(v),
+                        SOp::GInc(v) => gh.increment(v),
+                        SOp::GDec(v) => gh.decrement(v),
+                        SOp::GSet(v) => gh.set(v),
+                    }
+                    rec.lock().unwrap().push(cell.load(Ordering::SeqCst));
+                }
+            }) as Box<dyn FnOnce() + Send + 'static>
+        })
+        .collect();
+    let total: usize = progs.iter().map(|p| p.len()).sum();
+    // a correct CAS loop retries at most once per update of another thread: far below this bound
+    crate::sched::GRANT_LIMIT.store(64 + 8 * total * total, Ordering::SeqCst);
+    crate::sched::GAUGE_CAS_POINTS.store(true, Ordering::SeqCst);
+    let run = crate::sched::run_deadline(bodies, schedule, 10);
+    crate::sched::GAUGE_CAS_POINTS.store(false, Ordering::SeqCst);
+    crate::sched::GRANT_LIMIT.store(0, Ordering::SeqCst);
+    let mut fails = vec![];
+    if run.deadlock || run.timed_out {
+        fails.push((
+            "a scheduled run of counter/gauge updates did not finish (an update retries although no other thread interferes, or blocks)".to_string(),
+            format!("deadlock={} gave_up={} after {} grants", run.deadlock, run.timed_out, run.trace.len()),
+        ));
+    }
+    if !run.panicked.is_empty() {
+        fails.push(("a handle operation panicked".to_string(), format!("threads {:?} in a scheduled run", run.panicked)));
+    }
+    let fin = arc.load(Ordering::SeqCst);
+    let taken: Vec<usize> = run.trace.iter().map(|(t, _)| *t).collect();
+    // per thread: the ids it was parked at when granted, in order
+    let nt = progs.len();
+    let mut parks: Vec<Vec<&'static str>> = vec![vec![]; nt];
+    for (t, id) in &run.trace {
+        parks[*t].push(id);
+    }
+    let recs: Vec<Vec<u64>> = recs.iter().map(|r| r.lock().unwrap().clone()).collect();
+    let mut gi = vec![0usize; nt]; // grants seen per thread
+    let mut done = vec![0usize; nt]; // calls completed per thread
+    let mut seen: Vec<Option<u64>> = vec![None; nt]; // what the thread's last load / failed CAS saw
+    let mut cur = c0; // the cell, as the recorded values say
+    let mut toks = vec![];
+    let mut n_commits = 0;
+    let mut wrapped = false;
+    let mut max_abs: Option<u64> = None;
+    let mut missing_yield = 0usize;
+    let mut nan_cas = false;
+    for (t, id) in &run.trace {
+        let t = *t;
+        let j = gi[t];
+        gi[t] += 1;
+        let next_is_cas = parks[t].get(j + 1).map(|n| *n == CAS_POINT).unwrap_or(false);
+        let at_cas = *id == CAS_POINT;
+        if at_cas {
+            // which NaN an operation produces is not specified (the model uses one default NaN, the hardware propagates
+            // payloads): when both the value the closure was evaluated on and the cell are NaNs, whether the bits are
+            // equal — CAS success or one more retry — is outside the model; the native oracles below use the real bits
+            if gauge && seen[t].map_or(false, |b| f64::from_bits(b).is_nan()) && f64::from_bits(cur).is_nan() {
+                nan_cas = true;
+            }
+            // the CAS must succeed exactly when the cell still holds the bits the closure was evaluated on
+            let expect_ok = seen[t] == Some(cur);
+            if expect_ok == next_is_cas && !(run.deadlock || run.timed_out) {
+                fails.push((
+                    "a compare-exchange of a gauge increment/decrement went the wrong way: it must succeed exactly when the cell still holds the bits the update was computed from".to_string(),
+                    format!("thread {} grant {}: computed from {:?}, cell {:016x}, {}", t, toks.len(), seen[t].map(|b| format!("{:016x}", b)), cur, if next_is_cas { "retried" } else { "took effect" }),
+                ));
+            }
+        }
+        if next_is_cas {
+            seen[t] = Some(cur);
+            toks.push("l".to_string());
+            continue;
+        }
+        let k = done[t];
+        if k >= progs[t].len() || k >= recs[t].len() {
+            toks.push("-".to_string());
+            continue;
+        }
+        done[t] += 1;
+        let (live, op) = progs[t][k];
+        if !live {
+            if recs[t][k] != cur {
+                fails.push(("a call through a no-op handle changed the cell".to_string(), format!("thread {} call {}: {:016x} -> {:016x}", t, k, cur, recs[t][k])));
+            }
+            toks.push("n".to_string());
+            continue;
+        }
+        if op.is_cas_loop() != at_cas {
+            // not a failure of the property: the code no longer has the step granularity of the model (hook-C04 gone, or an
+            // update rewritten without `fetch_update`) — `src_cas_yield_points` and the model line below say so
+            missing_yield += 1;
+        }
+        let want = op.apply_native(cur);
+        let got = recs[t][k];
+        if !same_cell(gauge, got, want) {
+            fails.push((
+                "an update was not applied to the value current at its instant (lost, doubled or computed from a stale value)".to_string(),
+                format!("thread {} call {} {:?}: cell before {:016x}, after {:016x}, expected {:016x}", t, k, op, cur, got, want),
+            ));
+        }
+        match op {
+            SOp::Inc(v) => wrapped |= cur.checked_add(v).is_none(),
+            SOp::Abs(v) => max_abs = Some(max_abs.map_or(v, |m| m.max(v))),
+            _ => {}
+        }
+        if !gauge && !wrapped && (got < cur || max_abs.map_or(false, |m| got < m)) {
+            fails.push(("a counter decreased, or is below an absolute value given, although no increment wrapped".to_string(), format!("{:016x} -> {:016x}, largest absolute {:?}", cur, got, max_abs)));
+        }
+        cur = got;
+        n_commits += 1;
+        seen[t] = None;
+        toks.push(format!("c{}", cell_tok(gauge, got)));
+    }
+    if !same_cell(gauge, fin, cur) && !(run.deadlock || run.timed_out) {
+        fails.push(("the final cell is not what the last update left".to_string(), format!("{:016x} vs {:016x}", fin, cur)));
+    }
+    let n_eff: usize = progs.iter().flatten().filter(|(l, _)| *l).count();
+    if n_commits != n_eff && !(run.deadlock || run.timed_out) {
+        fails.push(("the number of updates that took effect is not the number of calls through live handles".to_string(), format!("{} vs {}", n_commits, n_eff)));
+    }
+    drop(keep_c);
+    drop(keep_g);
+    SchedOutcome { taken, toks, n_commits, fin, fails, missing_yield, nan_cas }
+}
+
+/// run + model line + oracles
+fn sched_case(out: &mut Out, gauge: bool, c0: u64, progs: &[Vec<(bool, SOp)>], schedule: &[usize]) -> SchedOutcome {
+    let o = sched_run(gauge, c0, progs, schedule);
+    let ptoks: Vec<Vec<String>> = progs.iter().map(|p| p.iter().map(|(l, op)| op.tok(*l)).collect()).collect();
+    if o.nan_cas {
+        out.count("sched.gauge.runs_not_compared_with_the_model(CAS_of_a_NaN_on_a_NaN_cell)");
+    } else {
+        out.op(
+            &format!("atomics {} {:x} {} {}", if gauge { "ctrace" } else { "ctraceu" }, c0, progs_tok(&ptoks), sched_tok(&o.taken)),
+            &format!("t={} n={} cell={} done=1", if o.toks.is_empty() { "-".to_string() } else { o.toks.join(".") }, o.n_commits, cell_tok(gauge, o.fin)),
+        );
+    }
+    for (w, d) in &o.fails {
+        out.oracle_fail(w, &format!("{} | c0 {:016x} progs {} schedule {}", d, c0, progs_tok(&ptoks), sched_tok(&o.taken)));
+    }
+    let retries = o.toks.iter().filter(|t| *t == "l").count();
+    let cas_calls = progs.iter().flatten().filter(|(l, op)| *l && op.is_cas_loop()).count();
+    out.count(if gauge { "sched.gauge.runs" } else { "sched.counter.runs" });
+    if o.missing_yield > 0 {
+        out.count("sched.runs_with_an_update_not_at_its_yield_point");
+    }
+    out.count_n("sched.cas.retries", retries.saturating_sub(cas_calls) as u64);
+    if retries > cas_calls {
+        out.count("sched.gauge.runs_with_a_failed_cas");
+    }
+    if progs.iter().filter(|p| p.iter().any(|(l, _)| *l)).count() >= 2 {
+        out.nontrivial();
+    }
+    o
+}
+
+/// a gauge operand for the scheduled races: non-dyadic decimals, values near `near` (so sums round), ±0.0, NaN, ±∞,
+/// subnormals, huge values, and the exact negation of an earlier operand (cancellation to ±0.0)
+fn sched_f64(r: &mut Rng, near: f64) -> f64 {
+    match r.below(10) {
+        0 | 1 => *r.pick(&[0.1, 0.2, 0.3, -0.1, 1.0 / 3.0, 2.0 / 3.0, 1e-17, 1e17, 0.7, -0.30000000000000004, 1.1, 2.675]),
+        2 => *r.pick(&[0.0, -0.0, -0.0, f64::NAN, f64::INFINITY, f64::NEG_INFINITY]),
+        3 => special_f64(r),
+        4 => near,
+        5 => -near,
+        _ => near_f64(r, near),
+    }
+}
+
+fn gen_sched_progs(r: &mut Rng, gauge: bool) -> (u64, Vec<Vec<(bool, SOp)>>) {
+    let nt = *r.pick(&[2usize, 2, 3, 3, 4]);
+    let (c0, mut near) = if gauge {
+        let v = match r.below(5) {
+            0 => 0.0,
+            1 => -0.0,
+            2 => special_f64(r),
+            _ => sched_f64(r, 0.1),
+        };
+        (v.to_bits(), if v.is_finite() && v != 0.0 { v } else { 0.1 })
+    } else {
+        (u64_class(r), 0.0)
+    };
+    let mut progs = vec![];
+    for _ in 0..nt {
+        let n = r.range(1, if nt == 2 { 4 } else { 3 });
+        let mut p = vec![];
+        for _ in 0..n {
+            let live = !r.chance(1, 12);
+            let op = if gauge {
+                let v = sched_f64(r, near);
+                if v.is_finite() && v != 0.0 && r.chance(1, 2) {
+                    near = v;
+                }
+                match r.below(10) {
+                    0..=2 => SOp::GSet(v),
+                    3..=6 => SOp::GInc(v),
+                    _ => SOp::GDec(v),
+                }
+            } else if r.chance(2, 3) {
+                SOp::Inc(u64_class(r))
+            } else {
+                SOp::Abs(u64_class(r))
+            };
+            p.push((live, op));
+        }
+        progs.push(p);
+    }
+    (c0, progs)
+}
+
+/// a schedule: mostly fair random, now and then bursts of one thread, or "everybody loads first" (round-robin
+/// prefix: every CAS loop has loaded before the first CAS is tried)
+fn gen_schedule(r: &mut Rng, nt: usize, total: usize) -> Vec<usize> {
+    let len = 3 * total + 4;
+    let mut s = vec![];
+    if r.chance(1, 3) {
+        s.extend(0..nt);
+    }
+    while s.len() < len {
+        let t = r.below(nt);
+        let burst = if r.chance(1, 4) { r.range(2, 4) } else { 1 };
+        for _ in 0..burst {
+            s.push(t);
+        }
+    }
+    s
+}
+
+fn gen_sched(r: &mut Rng, out: &mut Out) {
+    let gauge = !r.chance(1, 4);
+    let (c0, progs) = gen_sched_progs(r, gauge);
+    let total: usize = progs.iter().map(|p| p.len()).sum();
+    for _ in 0..4 {
+        let sch = gen_schedule(r, progs.len(), total);
+        sched_case(out, gauge, c0, &progs, &sch);
+    }
+}
+
+/// every schedule of a small configuration on the real code, each compared with the model; returns the number of runs
+fn sched_enumerate(out: &mut Out, gauge: bool, c0: u64, progs: &[Vec<(bool, SOp)>], limit: usize) -> usize {
+    // depth-first over the runnable sets, by replay (`sched::enumerate`'s strategy, with the model line per run)
+    let nt = progs.len();
+    let mut prefix: Vec<usize> = vec![];
+    let mut runs = 0;
+    loop {
+        let o = sched_case(out, gauge, c0, progs, &prefix);
+        runs += 1;
+        if runs >= limit || !o.fails.is_empty() {
+            return runs;
+        }
+        // runnable at position i = not yet returned there = granted at or after i in this (complete) run: there are no
+        // wait loops in these bodies, and a run ends only when every thread has returned
+        let taken = o.taken;
+        let mut i = taken.len();
+        let mut next = None;
+        while i > 0 {
+            i -= 1;
+            if let Some(alt) = (0..nt).filter(|c| *c > taken[i] && taken[i..].contains(c)).min() {
+                next = Some((i, alt));
+                break;
+            }
+        }
+        match next {
+            None => return runs,
+            Some((i, alt)) => {
+                prefix = taken[..i].to_vec();
+                prefix.push(alt);
+            }
+        }
+    }
+}
+
+fn sched_corpus(out: &mut Out, thorough: bool) {
+    let l = |op: SOp| (true, op);
+    // the race of `C04.cas_retry_witness`: A loads 0.1, B's set(-0.0) takes effect, A's CAS fails and retries
+    out.case("corpus: scheduled gauge race — set(-0.0) between the load and the CAS of an increment");
+    sched_case(out, true, 0.1f64.to_bits(), &[vec![l(SOp::GInc(0.1))], vec![l(SOp::GSet(-0.0)), l(SOp::GInc(0.2))]], &[0, 1, 0, 0, 1, 1, 1]);
+    // +0.0 -> -0.0 between load and CAS: equal as f64, different bits: the CAS must fail and the sum be -0.0 + -0.0 = -0.0
+    out.case("corpus: scheduled gauge race — the cell flips from +0.0 to -0.0 under a pending increment by -0.0");
+    sched_case(out, true, 0, &[vec![l(SOp::GInc(-0.0))], vec![l(SOp::GSet(-0.0))]], &[0, 1, 0, 0]);
+    // NaN cell: the CAS compares bits, so an increment of a NaN cell succeeds at once (a float comparison would spin)
+    out.case("corpus: scheduled gauge race — NaN cell");
+    sched_case(out, true, f64::NAN.to_bits(), &[vec![l(SOp::GInc(1.5)), l(SOp::GDec(0.1))], vec![l(SOp::GSet(f64::NAN)), l(SOp::GInc(0.1))]], &[0, 1, 0, 0, 1, 0, 1, 1]);
+    // the failed CAS observes a NaN: the retry must compute NaN + 0.2 = NaN, then 1.0 - 0.1 after the next interference
+    out.case("corpus: scheduled gauge race — set(NaN), then set(1.0), under a pending increment and decrement");
+    sched_case(out, true, 0.1f64.to_bits(), &[vec![l(SOp::GInc(0.2))], vec![l(SOp::GSet(f64::NAN)), l(SOp::GSet(1.0))], vec![l(SOp::GDec(0.1))]], &[0, 2, 1, 0, 2, 0, 1, 2, 2]);
+    // ABA: the cell is set away and back between load and CAS: the CAS succeeds, on the current value
+    out.case("corpus: scheduled gauge race — ABA (set away and back under a pending decrement)");
+    sched_case(out, true, 0.3f64.to_bits(), &[vec![l(SOp::GDec(0.1))], vec![l(SOp::GSet(7.0)), l(SOp::GSet(0.3))]], &[0, 1, 1, 0, 0]);
+    // three CAS loops that all loaded the same value: two of them must retry, the sum rounds at every step
+    out.case("corpus: scheduled gauge race — three increments loaded the same value");
+    sched_case(out, true, 0.1f64.to_bits(), &[vec![l(SOp::GInc(0.2))], vec![l(SOp::GInc(0.3))], vec![l(SOp::GDec(1e-17)), (false, SOp::GSet(9.0))]], &[0, 1, 2, 2, 1, 0, 1, 0, 0, 2, 2]);
+    out.case("corpus: scheduled counter race — absolute between wrapping increments");
+    sched_case(out, false, u64::MAX - 1, &[vec![l(SOp::Inc(1)), l(SOp::Inc(1))], vec![l(SOp::Abs(5)), l(SOp::Abs(u64::MAX))], vec![(false, SOp::Inc(9)), l(SOp::Inc(7))]], &[0, 1, 2, 0, 1, 2]);
+    // every schedule of small configurations
+    let configs: Vec<(bool, u64, Vec<Vec<(bool, SOp)>>)> = vec![
+        (true, 0.1f64.to_bits(), vec![vec![l(SOp::GInc(0.2))], vec![l(SOp::GSet(-0.0)), l(SOp::GDec(0.3))]]),
+        (true, 0, vec![vec![l(SOp::GInc(0.1)), l(SOp::GDec(0.1))], vec![l(SOp::GInc(1e17))]]),
+        (true, (-0.0f64).to_bits(), vec![vec![l(SOp::GInc(-0.0))], vec![l(SOp::GSet(0.0))], vec![l(SOp::GDec(f64::NAN))]]),
+        (false, u64::MAX, vec![vec![l(SOp::Inc(1)), l(SOp::Abs(3))], vec![l(SOp::Abs(2)), l(SOp::Inc(u64::MAX))]]),
+        // thorough only: three threads, two calls each (thousands of schedules)
+        (true, 0.1f64.to_bits(), vec![vec![l(SOp::GInc(0.2)), l(SOp::GDec(0.3))], vec![l(SOp::GSet(-0.0)), l(SOp::GInc(0.1))], vec![l(SOp::GDec(1e-17)), l(SOp::GSet(0.7))]]),
+        (true, 0, vec![vec![l(SOp::GInc(0.1)), l(SOp::GInc(0.2))], vec![l(SOp::GDec(0.3)), (false, SOp::GSet(5.0))], vec![l(SOp::GInc(f64::INFINITY)), l(SOp::GSet(-0.1))]]),
+        (false, 5, vec![vec![l(SOp::Inc(u64::MAX - 5)), l(SOp::Abs(3))], vec![l(SOp::Abs(9)), l(SOp::Inc(1))], vec![l(SOp::Inc(2)), l(SOp::Abs(u64::MAX))]]),
+    ];
+    for (k, (gauge, c0, progs)) in configs.iter().enumerate() {
+        if !thorough && k >= 4 {
+            break;
+        }
+        out.case(&format!("corpus: every schedule of small configuration {}", k));
+        let runs = sched_enumerate(out, *gauge, *c0, progs, if thorough { 15000 } else { 400 });
+        out.count_n("sched.enumerated.runs", runs as u64);
+    }
+}
+
+// ---------------------------------------------------------------------------------------------
+// (round 4) type probes: safe programs that must NOT compile against the crate as built
+
+struct TProbe {
+    name: &'static str,
+    what: &'static str,
+    body: &'static str,
+}
+
+const TPROBE_CONTROL: &str = "use metrics::{Counter, Gauge, Histogram};\nuse std::sync::Arc;\nuse metrics::atomics::AtomicU64;\nfn share<T: Clone + Send + Sync + 'static>(_: &T) {}\npub fn f(c: &Counter, g: &Gauge, h: &Histogram) { share(c); share(g); share(h); c.increment(1u64); c.absolute(u64::MAX); g.set(1u32); g.increment(1.5f32); g.decrement(std::time::Duration::from_secs(1)); h.record(-1i8); h.record_many(2u16, usize::MAX); let a = Arc::new(AtomicU64::new(0)); let _ = (Counter::from_arc(a.clone()), Gauge::from_arc(Arc::new(a.clone())), Counter::from(a)); }\n";
+
+const TPROBES: &[TProbe] = &[
+    TProbe {
+        name: "Gauge::set(u64)",
+        what: "a u64 gauge argument compiles although no conversion to f64 is documented for it (it cannot be lossless)",
+        body: "pub fn f(g: &metrics::Gauge) { g.set(1u64); }",
+    },
+    TProbe {
+        name: "Histogram::record(usize)",
+        what: "a usize histogram argument compiles although no conversion to f64 is documented for it",
+        body: "pub fn f(h: &metrics::Histogram) { h.record(1usize); }",
+    },
+    TProbe {
+        name: "Gauge::increment(i64)",
+        what: "an i64 gauge argument compiles although no conversion to f64 is documented for it",
+        body: "pub fn f(g: &metrics::Gauge) { g.increment(-1i64); }",
+    },
+    TProbe {
+        name: "Counter::from_arc(non-Sync storage)",
+        what: "a counter handle accepts a storage that is not Sync although handles are used from any thread",
+        body: "struct S(std::cell::Cell<u64>);\nimpl metrics::CounterFn for S { fn increment(&self, v: u64) { self.0.set(v) } fn absolute(&self, v: u64) { self.0.set(v) } }\npub fn f() -> metrics::Counter { metrics::Counter::from_arc(std::sync::Arc::new(S(std::cell::Cell::new(0)))) }",
+    },
+];
+
+fn type_probes(out: &mut Out) {
+    let dir = out.dir.join("probes");
+    std::fs::create_dir_all(&dir).expect("probe dir");
+    let pre = "#![allow(dead_code, unused_variables)]\n";
+    let control = crate::c01::rustc_check(&dir, "c04probe_control", &format!("{}{}", pre, TPROBE_CONTROL));
+    if let Err(e) = &control {
+        panic!("C04 type probes: the LEGAL control program does not compile — harness/toolchain problem, or the handle API changed:\n{}", e);
+    }
+    let results: Vec<Result<(), String>> = std::thread::scope(|s| {
+        let hs: Vec<_> = TPROBES
+            .iter()
+            .enumerate()
+            .map(|(i, p)| {
+                let dir = dir.clone();
+                s.spawn(move || crate::c01::rustc_check(&dir, &format!("c04probe{}", i), &format!("{}{}\n", pre, p.body)))
+            })
+            .collect();
+        hs.into_iter().map(|h| h.join().expect("probe thread")).collect()
+    });
+    for (p, body) in TPROBES.iter().zip(results) {
+        out.case(&format!("type probe: {}", p.name));
+        out.count("type_probe");
+        match &body {
+            Ok(()) => out.oracle_fail(p.what, &format!("rustc accepts: {}", p.body)),
+            Err(e) if e.contains("[E0277]") => out.count("type_probe.rejected"),
+            Err(e) => panic!("type probe `{}`: rustc refused the program for an unexpected reason (expected E0277):\n{}", p.name, e),
+        }
+    }
+}
 
 fn corpus(out: &mut Out) {
     // counters: wrap-around sums, u64::MAX, late small absolute, absolute after a wrap, no-op handles
@@ -1506,11 +2106,19 @@ fn corpus(out: &mut Out) {
 pub fn run(cfg: &Cfg, out: &mut Out) {
     let prev_hook = std::panic::take_hook();
     std::panic::set_hook(Box::new(|_| {})); // panics are caught and reported as oracle failures
+    type_probes(out);
     corpus(out);
+    sched_corpus(out, cfg.thorough);
     let root = Rng::new(cfg.seed);
     let conc_len = if cfg.thorough { 2500 } else { 1500 };
     for i in 0..cfg.cases {
         let mut r = root.fork(i as u64);
+        if i % 5 == 2 {
+            // round 4: an extra scheduled race (3 schedules of one configuration) every fifth case
+            let mut rs = root.fork(1_000_000 + i as u64);
+            out.case(&format!("seed={} i={} scheduled", cfg.seed, i));
+            gen_sched(&mut rs, out);
+        }
         out.case(&format!("seed={} i={}", cfg.seed, i));
         match i % 20 {
             0..=3 => gen_seq_counter(&mut r, out),
@@ -1547,7 +2155,14 @@ pub fn run(cfg: &Cfg, out: &mut Out) {
                     conc_counter_race(&mut r, out, conc_len)
                 }
             }
-            17 | 18 => conc_gauge(&mut r, out, conc_len),
+            17 => conc_gauge(&mut r, out, conc_len),
+            18 => {
+                if i % 40 == 18 {
+                    conc_gauge(&mut r, out, conc_len)
+                } else {
+                    conc_gauge_set_vs_inc(&mut r, out, conc_len)
+                }
+            }
             _ => {
                 if i % 40 == 19 {
                     conc_gauge_set(&mut r, out, conc_len)
